@@ -109,7 +109,10 @@ Emit(n) ==
     [] n.k = "post" -> Wrap(PPrec(n.c[1]) < PP_POSTFIX, Emit(n.c[1])) \o <<S(n.op)>>
     [] n.k = "grp" -> <<Ru("("), IncO>> \o Emit(n.c[1]) \o <<DecO, Ru(")")>>
     [] n.k = "call" -> Emit(n.c[1]) \o <<Ru("("), IncO>> \o EmitList(SubSeq(n.c, 2, Len(n.c)), 1) \o <<DecO, Ru(")")>>
-    [] n.k = "mem" -> Emit(n.c[1]) \o <<Ru(".")>> \o Emit(n.c[2])
+    [] n.k = "mem" ->
+         \* a space between a decimal integer literal and the dot (`5.x` would be the number `5.`)
+         Emit(n.c[1]) \o (IF n.c[1].k = "num" /\ \A j \in 1..Len(VB(n.c[1].op)) : VB(n.c[1].op)[j] \in 48..57 THEN <<Ru(" ")>> ELSE <<>>)
+         \o <<Ru(".")>> \o Emit(n.c[2])
     [] n.k = "idx" -> Emit(n.c[1]) \o <<Ru("[")>> \o Emit(n.c[2]) \o <<Ru("]")>>
     [] n.k = "asg" -> Emit(n.c[1]) \o <<Sp, Ru("="), Sp>> \o Emit(n.c[2])
     [] n.k = "casg" -> Emit(n.c[1]) \o <<Sp, S(SubSeq(n.op, 1, 1)), Ru("="), Sp>> \o Emit(n.c[2])
